@@ -145,7 +145,7 @@ func (u *UUID) UnmarshalText(text []byte) (err error) {
 	case 45:
 		return u.decodeURN(text)
 	default:
-		return errors.Wrap(ErrUUIDLength, string(text))
+		return errors.WithMessage(ErrUUIDLength, string(text))
 	}
 }
 
@@ -153,7 +153,7 @@ func (u *UUID) UnmarshalText(text []byte) (err error) {
 // "6ba7b810-9dad-11d1-80b4-00c04fd430c8".
 func (u *UUID) decodeCanonical(t []byte) (err error) {
 	if t[8] != '-' || t[13] != '-' || t[18] != '-' || t[23] != '-' {
-		return errors.Wrap(ErrUUIDFormat, string(t))
+		return errors.WithMessage(ErrUUIDFormat, string(t))
 	}
 
 	src := t[:]
@@ -165,7 +165,7 @@ func (u *UUID) decodeCanonical(t []byte) (err error) {
 		}
 		if _, err = hex.Decode(dst[:byteGroup/2], src[:byteGroup]); err != nil {
 			*u = NilUUID
-			return errors.Wrap(ErrUUIDFormat, err.Error())
+			return errors.WithMessage(ErrUUIDFormat, err.Error())
 		}
 		src = src[byteGroup:]
 		dst = dst[byteGroup/2:]
@@ -179,7 +179,7 @@ func (u *UUID) decodeCanonical(t []byte) (err error) {
 func (u *UUID) decodeHashLike(t []byte) (err error) {
 	if _, err = hex.Decode(u[:], t[:]); err != nil {
 		*u = NilUUID
-		return errors.Wrap(ErrUUIDFormat, err.Error())
+		return errors.WithMessage(ErrUUIDFormat, err.Error())
 	}
 	return
 }
@@ -191,7 +191,7 @@ func (u *UUID) decodeBraced(t []byte) (err error) {
 	l := len(t)
 
 	if t[0] != '{' || t[l-1] != '}' {
-		return errors.Wrap(ErrUUIDFormat, string(t))
+		return errors.WithMessage(ErrUUIDFormat, string(t))
 	}
 
 	return u.decodePlain(t[1 : l-1])
@@ -203,7 +203,7 @@ func (u *UUID) decodeBraced(t []byte) (err error) {
 func (u *UUID) decodeURN(t []byte) (err error) {
 	// t[:9] is urnUUIDPrefix
 	if !bytes.Equal(t[:9], urnPrefix) {
-		return errors.Wrap(ErrUUIDFormat, string(t))
+		return errors.WithMessage(ErrUUIDFormat, string(t))
 	}
 
 	return u.decodePlain(t[9:])
@@ -219,6 +219,6 @@ func (u *UUID) decodePlain(t []byte) (err error) {
 	case 36:
 		return u.decodeCanonical(t)
 	default:
-		return errors.Wrap(ErrUUIDLength, string(t))
+		return errors.WithMessage(ErrUUIDLength, string(t))
 	}
 }
